@@ -899,9 +899,134 @@ func c18Second(c *fw.Ctx, rng *fw.RNG) {
 	}
 }
 
+// c18ManyStores: several Store VALUES opened on the same directory (as several processes would have), each
+// streaming a different key, their chunk writes interleaved by the harness one at a time — so the schedule is
+// decided from the client side and needs no luck: all streams are opened first, then chunks go round-robin or
+// in a PRNG-drawn order, commits come in a drawn order, some streams are abandoned. After every commit and at
+// the end every key is absent or complete, through each of the Store values and through a freshly opened one.
+// (Round-3 seed C18-7: staging files named from a per-Store counter and taken over when the name exists —
+// invisible to any number of goroutines sharing ONE Store.)
+func c18ManyStores(c *fw.Ctx, rng *fw.RNG) {
+	dir, err := os.MkdirTemp("", "verif-c18m-")
+	if err != nil {
+		c.Inconclusive(err.Error())
+		return
+	}
+	defer os.RemoveAll(dir)
+	bg := context.Background()
+	n := 2 + rng.Intn(3)
+	type stream struct {
+		st      *fsstore.Store
+		key     string
+		content []byte
+		w       io.Writer
+		commit  func(string) error
+		pos     int
+		done    bool
+		abandon bool
+	}
+	var streams []*stream
+	var log []string
+	c.SetCase(func() any { return map[string]any{"family": "several Store values on one directory", "schedule": log} })
+	for k := 0; k < n; k++ {
+		st, err := c18Open(dir)
+		if err != nil {
+			c.Inconclusive(err.Error())
+			return
+		}
+		key := fmt.Sprintf("s%d-%s", k, []string{"aa", "aa", "bb"}[rng.Intn(3)])
+		content := bytes.Repeat(c18Content(key), 1+rng.Intn(6))
+		streams = append(streams, &stream{st: st, key: key, content: content, abandon: rng.Chance(1, 6)})
+	}
+	check := func(when string) {
+		fresh, err := c18Open(dir)
+		if err != nil {
+			c.Deviate("C18:many-stores:reopen-fails", fmt.Sprintf("%s: a new Store on the directory fails to open: %v", when, err))
+			return
+		}
+		views := []*fsstore.Store{fresh}
+		for _, s := range streams {
+			views = append(views, s.st)
+		}
+		for _, s := range streams {
+			for vi, v := range views {
+				got, gerr := v.Get(bg, s.key)
+				c.Count("many_store_reads", 1)
+				switch {
+				case gerr != nil:
+					if has, _ := v.Has(bg, s.key); has {
+						c.Deviate("C18:many-stores:has-but-unreadable", fmt.Sprintf("%s: key %q: Has is true but Get fails: %v (view %d)", when, s.key, gerr, vi))
+					} else if s.done && !s.abandon {
+						c.Deviate("C18:many-stores:committed-key-absent", fmt.Sprintf("%s: key %q was committed without error and is absent (view %d): %v", when, s.key, vi, gerr))
+					}
+				case !bytes.Equal(got, s.content):
+					c.Deviate("C18:many-stores:partial-or-mixed-block", fmt.Sprintf("%s: key %q holds %d bytes that are not its content (%d bytes) — view %d; schedule: %v", when, s.key, len(got), len(s.content), vi, log))
+				case !s.done || s.abandon:
+					c.Deviate("C18:many-stores:visible-before-commit", fmt.Sprintf("%s: key %q is readable although its stream was not committed (view %d)", when, s.key, vi))
+				}
+			}
+		}
+	}
+	for _, s := range streams {
+		w, commit, err := s.st.PutStream(bg)
+		if err != nil {
+			c.Deviate("C18:many-stores:putstream-fails", err.Error())
+			return
+		}
+		s.w, s.commit = w, commit
+		log = append(log, "open "+s.key)
+	}
+	c.Count("many_store_histories", 1)
+	chunk := []int{1, 7, 64, 500}[rng.Intn(4)]
+	for {
+		var live []*stream
+		for _, s := range streams {
+			if !s.done {
+				live = append(live, s)
+			}
+		}
+		if len(live) == 0 {
+			break
+		}
+		s := live[rng.Intn(len(live))]
+		if s.pos < len(s.content) && !(s.abandon && s.pos > 0 && rng.Chance(1, 3)) {
+			end := s.pos + chunk
+			if end > len(s.content) {
+				end = len(s.content)
+			}
+			if _, err := s.w.Write(s.content[s.pos:end]); err != nil {
+				c.Deviate("C18:many-stores:write-fails", fmt.Sprintf("key %q: %v; schedule: %v", s.key, err, log))
+				return
+			}
+			log = append(log, fmt.Sprintf("write %s[%d:%d]", s.key, s.pos, end))
+			s.pos = end
+			continue
+		}
+		k := s.key
+		if s.abandon {
+			k = ""
+		}
+		err := s.commit(k)
+		s.done = true
+		log = append(log, fmt.Sprintf("commit %q -> %v", k, err))
+		if err != nil && !s.abandon {
+			c.Deviate("C18:many-stores:commit-fails", fmt.Sprintf("key %q: %v; schedule: %v", s.key, err, log))
+			return
+		}
+		check("after " + log[len(log)-1])
+	}
+	check("at the end")
+}
+
 func (c18) RunCase(c *fw.Ctx, rng *fw.RNG, batch, i int) {
 	if i%5 == 4 {
 		c18Second(c, rng)
+		return
+	}
+	if i%5 == 2 {
+		for k := 0; k < 6; k++ {
+			c18ManyStores(c, rng)
+		}
 		return
 	}
 	dir, err := os.MkdirTemp("", "verif-c18-")
